@@ -1,7 +1,7 @@
 (* C32 — the statements of Property.v, proved from Proofs.v / ProofsIp.v / ProofsCheck.v. *)
 From Coq Require Import List NArith Bool Arith Lia String.
 Import ListNotations.
-From TV Require Import Lib.Obs C32.Model C32.Spec C32.Run C32.Proofs C32.ProofsIp C32.ProofsCheck.
+From TV Require Import Lib.Obs C32.Model C32.Spec C32.Run C32.Proofs C32.ProofsIp C32.ProofsNames C32.ProofsCheck.
 Local Open Scope N_scope.
 
 Section OneRequest.
@@ -141,12 +141,14 @@ Proof.
   - constructor; [reflexivity|constructor].
 Qed.
 
-(* a concrete connection meeting every hypothesis of check_case_model:
-   socket 9.9.9.9, requests [X-Real-Ip: 4.4.4.4; X-Scheme: https] then a bare one *)
+(* a concrete well-formed connection: socket 9.9.9.9, requests
+   ["x-real-ip: 4.4.4.4"; "X-SCHEME: https"] (HTTP/1.1) then a bare one *)
 Definition ex_input : input :=
-  (FInet, Some [57;46;57;46;57;46;57], None, [],
+  (FInet, Some [57;46;57;46;57;46;57], None, [], false,
    [([57;46;57;46;57;46;57], true); ([52;46;52;46;52;46;52], true)],
-   [([(HReal, [52;46;52;46;52;46;52]); (HScheme, s_https)], Finish true); ([], Finish true)]).
+   [([([120;45;114;101;97;108;45;105;112], [52;46;52;46;52;46;52]);
+      ([88;45;83;67;72;69;77;69], s_https)], RFinish true);
+    ([], RFinish true)]).
 
 Lemma lookup_in : forall tbl s b, lookup tbl s = Some b -> In s (map fst tbl).
 Proof.
@@ -156,14 +158,22 @@ Proof.
   - right. eapply IH. exact H.
 Qed.
 
-Example ex_input_checks : check_case ex_input (run_case ex_input) = true.
+Example ex_input_wf : input_wf ex_input = true.
 Proof.
-  apply check_case_model; try reflexivity.
+  apply input_wf_intro; try reflexivity.
   - intros s Hin _ _. simpl in Hin. destruct Hin as [<-|[<-|[]]]; reflexivity.
-  - intros s _ H. unfold gai_of in H.
-    destruct (lookup _ s) as [b|] eqn:L; [|discriminate]. apply lookup_in in L.
-    simpl in L. destruct L as [<-|[<-|[]]]; reflexivity.
+  - intros s Hin _ _. simpl in Hin. destruct Hin as [<-|[<-|[]]]; reflexivity.
 Qed.
+
+Example ex_input_checks : check_case ex_input (run_case ex_input) = true.
+Proof. apply check_case_model. exact ex_input_wf. Qed.
+
+(* a connection whose table does not cover the string asked is rejected, not accepted *)
+Example ex_input_ill_formed :
+  let i : input := (FInet, Some [57;46;57;46;57;46;57], None, [], false, [],
+                    [([], RFinish true)]) in
+  input_wf i = false /\ check_case i (run_case i) = false.
+Proof. split; reflexivity. Qed.
 
 (* the second request of ex_input sees the socket values although the first was rewritten *)
 Example ex_input_seen :
